@@ -33,36 +33,50 @@
     NoUnusedFragments            = 5.5.1.4 Fragments Must Be Used
     NoUndefinedVariables         = 5.8.3 All Variable Uses Defined
     NoUnusedVariables            = 5.8.4 All Variables Used
-    VariableInAllowedPosition    = 5.8.5 All Variable Usages Are Allowed  (well-formed registry; no variable
-                                   whose default is the literal `null`: the implementation counts it as
-                                   a default, IsVariableUsageAllowed does not — `c09_counterexample_null_default`)
+    VariableInAllowedPosition    = 5.8.5 All Variable Usages Are Allowed  (well-formed registry)
   `c09_partial_graph`: rejected ↔ invalid restricted to 18 of the 22 rule structs (+ walker + all four
   parser checks) and 23 of the 28 reference rules, variables allowed everywhere.
-  The remaining rules, each PROVED under the hypothesis its counterexample shows to be necessary:
-    KnownArgumentNames           = 5.4.1 Argument Names  (the rule keeps `current_args` across a field it does
-                                   not know: fields carrying arguments are fields of their parent type,
-                                   `__typename` carries none — `c09_counterexample_typename_arguments`)
+  The remaining rules:
+    KnownArgumentNames           = 5.4.1 Argument Names
     DefaultValuesOfCorrectType   = default-value half of 5.6  (relative to `DefaultsAgree`)
-    ArgumentsOfCorrectType       = argument half of 5.6  (arguments are literals WITHOUT variables, relative to
-                                   `ArgLiteralsAgree`; with variables the repaired model differs in both
-                                   directions — `c09_counterexample_variable_in_list`, `c09_counterexample_enum_variable`)
-    is_valid_input_value         = 5.6.1 on constants without repeated object keys, in registries with scalar
-                                   built-ins and defined input objects (`c09_rule_is_valid_input_value`,
+    ArgumentsOfCorrectType       = argument half of 5.6  (variables anywhere; relative to `ArgLiteralsAgree`)
+    is_valid_input_value         = 5.6.1 on constants and on literals with variables, without repeated object
+                                   keys, in registries with scalar built-ins and defined input objects
+                                   (`c09_rule_is_valid_input_value`, `c09_rule_is_valid_input_literal`,
                                    Lemmas/ValidateLiterals.lean) — which discharges the two `…Agree` hypotheses
                                    (`c09_literals_agree`, `c09_wf_of_schema`)
     the three missing rules      = 5.3.2, 5.2.3.1, 6.1.2  (`c09_rule_repaired`, by construction of `repairedErrors`)
-    OverlappingFieldsCanBeMerged ⇒ 5.3.2 Field Selection Merging  (SOUND where every inline fragment carries a
-                                   type condition, Lemmas/ValidateOverlap.lean; with a condition-less inline
-                                   fragment it reports conflicts the reference does not see —
-                                   `c09_counterexample_overlap_untyped_inline`; that it is not complete is
-                                   the open finding C09-overlap-keyed-by-condition)
-  `c09_corrected_wf` (PROVED): under `C09WF` (the hypotheses above) the repaired pipeline rejects exactly
-  the requests the reference validator calls invalid — all 22 rule structs, all 28 reference rules.
+    OverlappingFieldsCanBeMerged ⇒ 5.3.2 Field Selection Merging  (SOUND, Lemmas/ValidateOverlap.lean; that it
+                                   is not complete is the open finding C09-overlap-keyed-by-condition)
+  Four behaviours of the rule code that the previous proof pass had to exclude by hypotheses (they were
+  hard-wired in the model) are now defects with toggles — on in the pinned model, off in the repaired
+  one — each replayed on the real code (corpus/C09/rule_defects.case) and with a witness theorem:
+    overlapUntypedInlineKeyedNone  a condition-less inline fragment is filed under `None`: a VALID document
+                                   is rejected (`c09_witness_overlap_untyped_inline`, finding
+                                   C09-overlap-untyped-inline)
+    nullDefaultCounts              `$v: Int = null` counts as "has a default" (`c09_witness_null_default`,
+                                   finding C09-null-default-counts, latent behind C09-input-value-not-forwarded)
+    knownArgsStale                 KnownArgumentNames keeps `current_args` at a field it does not know, and
+                                   does not know `__typename` (`c09_witness_typename_arguments`, finding
+                                   C09-known-args-stale; for `__typename` latent behind C09-typename-not-visited)
+    argsJudgedAfterSubstitution    ArgumentsOfCorrectType substitutes variable values and judges the result as
+                                   a constant: an argument with an unsupplied variable is not judged
+                                   (`c09_witness_variable_in_list`, finding
+                                   C06-literal-unchecked-beside-unsupplied-variable, `also` C09); the repaired
+                                   model judges literals by 5.6.1 and variable values by 6.1.2, so an enum
+                                   value supplied as a string stays accepted when the string LITERAL is no
+                                   longer (`c09_witness_enum_variable`)
+  `c09_corrected_wf` (PROVED): under `C09WF` — well-formed registry, no sub-selection below `__typename`,
+  `is_valid_input_value` agrees with 5.6.1 on the values that occur (true where no object literal repeats a
+  key) — the repaired pipeline rejects exactly the requests the reference validator calls invalid: all 22
+  rule structs, all 28 reference rules, variables / condition-less inline fragments / `null` defaults /
+  arguments at `__typename` and at unknown fields included.
 
   The statements that were OPEN are FALSE of the model as stated and are refuted by witnesses
   (`c09_refuted`, `c09_rule_equivalences_refuted`, `c09_corrected_refuted`);
   `c09_rule_equivalences_served` is the corrected, proved form of the second, `c09_corrected_wf` of the
-  first and third.
+  first and third (`c09_corrected` is refuted by an object literal that repeats a key:
+  `c09_counterexample_repeated_key`).
   Two earlier counterexamples are no longer counterexamples of the toggle-free model:
   the `ifdef` exemption of FieldsOnCorrectType is a defect of the pinned tree (toggle
   `ifdefSkipsUnknownField`, finding C09-ifdef-skips-unknown-field, `c09_witness_ifdef`), and the
@@ -106,7 +120,7 @@
   OBLIGATION c09_partial_typed
   OBLIGATION c09_witness_schema_wellformed
   OBLIGATION c09_witness_schema_abstract_inhabited
-  OBLIGATION c09_counterexample_two_operations
+  OBLIGATION c09_witness_two_operations
   OBLIGATION c09_witness_ifdef
   OBLIGATION c09_witness_enum_default
   OBLIGATION c09_default_literal_enum
@@ -125,17 +139,19 @@
   OBLIGATION c09_rule_arguments_of_correct_type
   OBLIGATION c09_rule_repaired
   OBLIGATION c09_rule_overlapping_fields_sound
-  OBLIGATION c09_counterexample_overlap_untyped_inline
-  OBLIGATION c09_counterexample_null_default
-  OBLIGATION c09_counterexample_typename_arguments
-  OBLIGATION c09_counterexample_variable_in_list
-  OBLIGATION c09_counterexample_enum_variable
+  OBLIGATION c09_witness_overlap_untyped_inline
+  OBLIGATION c09_witness_null_default
+  OBLIGATION c09_witness_typename_arguments
+  OBLIGATION c09_witness_variable_in_list
+  OBLIGATION c09_witness_enum_variable
+  OBLIGATION c09_counterexample_repeated_key
   OBLIGATION c09_counterexample_hyp
   OBLIGATION c09_corrected_refuted
   OBLIGATION c09_corrected_wf
   OBLIGATION c09_wf_example
   OBLIGATION c09_partial_graph
   OBLIGATION c09_rule_is_valid_input_value
+  OBLIGATION c09_rule_is_valid_input_literal
   OBLIGATION c09_literals_agree
   OBLIGATION c09_wf_of_schema
 -/
@@ -705,22 +721,17 @@ def c09_rule_equivalences : Prop :=
 def namedOp (n : String) (vars : List VarDef) (sels : List Sel) : OpDef := { ty := .query, name := some n, vars := vars, dirs := [], sels := sels }
 
 /-- `query A($v: Int){ def(x: $v) }  query B { pet { __typename } }`, variables `{"v": "bad"}`, no
-    operation name: `ArgumentsOfCorrectType` substitutes the supplied variables into EVERY operation
-    that is not deselected by name and reports the string; the reference validator coerces the
-    variables of the selected operation only, and none is selected. -/
+    operation name: the pinned `ArgumentsOfCorrectType` substitutes the supplied variables into EVERY
+    operation that is not deselected by name and reports the string; the reference validator coerces
+    the variables of the selected operation only, and none is selected.  One more witness of
+    `argsJudgedAfterSubstitution`: the repaired rule judges the argument as written. -/
 def dTwoOps : Doc :=
   { ops := [namedOp "A" [{ name := "v", ty := .named "Int", default := none }] [fld "def" [("x", .var "v")]],
             namedOp "B" [] [fld "pet" [] [fld "__typename"]]], frags := [] }
 
-theorem c09_counterexample_two_operations :
-    rejects {} dTwoOps [("v", .str "bad")] = true ∧ specInvalid dTwoOps [("v", .str "bad")] = false := by
-  decide +kernel
-
-/-- `c09` is FALSE of the model, on the well-formed witness schema `S0`. -/
-theorem c09_refuted : ¬ c09 := by
-  intro h
-  have h1 := h S0 dTwoOps [("v", .str "bad")] none
-  revert h1
+theorem c09_witness_two_operations :
+    rejects { argsJudgedAfterSubstitution := true } dTwoOps [("v", .str "bad")] = true
+    ∧ rejects {} dTwoOps [("v", .str "bad")] = false ∧ specInvalid dTwoOps [("v", .str "bad")] = false := by
   decide +kernel
 
 /-- a schema with a user-defined directive called `ifdef` on fields -/
@@ -895,22 +906,20 @@ theorem c09_rule_no_unused_variables (hG : GraphHyp S d) :
 theorem c09_rule_recursion_guard (h : PreKind.recursionDepth ∈ preErrors d) :
     violates_FragmentSpreadsMustNotFormCycles d = true := pre_recursionDepth d h
 
-/-- VariableInAllowedPosition = §5.8.5 All Variable Usages Are Allowed (well-formed registry; no
-    variable with the literal `null` as default, see `c09_counterexample_null_default`) -/
-theorem c09_rule_variables_in_allowed_position (hG : GraphHyp S d) (hW : SchemaWF S) (hN : NoNullDefault d) :
+/-- VariableInAllowedPosition = §5.8.5 All Variable Usages Are Allowed (well-formed registry; the
+    repaired rule does not count the literal `null` as a default, see `c09_witness_null_default`) -/
+theorem c09_rule_variables_in_allowed_position (hG : GraphHyp S d) (hW : SchemaWF S) :
     Kind.varPosition ∈ strictErrors S {} d vars o ↔ violates_AllVariableUsagesAllowed S d = true := by
   rw [strict_varPosition, scopeTable_events S d hG.nodup]
-  exact rule_variables_in_allowed_position S d hG hW.block.typed (hW.roots d).exist hN
+  exact rule_variables_in_allowed_position S d hG hW.block.typed (hW.roots d).exist
 
-/-- KnownArgumentNames = §5.4.1 Argument Names, where the rule's `current_args` cannot go stale
-    (every field that carries arguments is a field of its parent type) and `__typename` carries no
-    arguments (see `c09_counterexample_typename_arguments`) -/
-theorem c09_rule_known_argument_names (hW : SchemaWF S) (hs : violates_OperationTypeExists S d = false)
-    (hK : ArgsOnKnownFields S d) (hT : ∀ s ∈ allSels d, typenameNoArgs s) :
+/-- KnownArgumentNames = §5.4.1 Argument Names (the repaired rule resets `current_args` at a field the
+    parent type does not have and knows `__typename`, see `c09_witness_typename_arguments`) -/
+theorem c09_rule_known_argument_names (hW : SchemaWF S) (hs : violates_OperationTypeExists S d = false) :
     (Kind.unknownArgField ∈ strictErrors S {} d vars o ∨ Kind.unknownArgDir ∈ strictErrors S {} d vars o) ↔
       violates_ArgumentNames S d = true := by
   rw [strict_knownArgs S d vars o _ (Or.inr rfl), strict_knownArgs S d vars o _ (Or.inl rfl)]
-  exact rule_known_argument_names S d hW.block.typed (served_of S d hs) (hW.roots d).exist hK hT
+  exact rule_known_argument_names S d hW.block.typed hW.block.stringNotComposite (served_of S d hs) (hW.roots d).exist
 
 /-- §5.6 Values Of Correct Type = its argument half or its default-value half -/
 theorem c09_values_of_correct_type_split :
@@ -925,13 +934,14 @@ theorem c09_rule_default_values (hs : violates_OperationTypeExists S d = false) 
   rw [strict_stateless S d vars o _ (by decide)]
   exact rule_default_values S d (served_of S d hs) hD
 
-/-- ArgumentsOfCorrectType = the argument half of §5.6, for documents whose arguments are literals
-    without variables, where `is_valid_input_value` and §5.6.1 agree on these literals -/
+/-- ArgumentsOfCorrectType = the argument half of §5.6 (the repaired rule judges the argument as
+    written, a variable being acceptable anywhere, see `c09_witness_variable_in_list`), where
+    `is_valid_input_value` over literals and §5.6.1 agree on the arguments that occur -/
 theorem c09_rule_arguments_of_correct_type (hW : SchemaWF S) (hs : violates_OperationTypeExists S d = false)
-    (hV : DocVarFree d) (hA : ArgLiteralsAgree S d) :
+    (hA : ArgLiteralsAgree S d) :
     Kind.argInvalid ∈ strictErrors S {} d vars o ↔ (argSites S d).any (siteBadValue S) = true := by
   rw [strict_argInvalid]
-  exact rule_arguments_of_correct_type S d vars o hW.block.typed (served_of S d hs) (hW.roots d).exist hV hA
+  exact rule_arguments_of_correct_type S d vars o hW.block.typed (served_of S d hs) (hW.roots d).exist hA
 
 /-- the three reference rules the pinned tree has no (working) rule for are what a repaired
     implementation reports in addition: §5.3.2, §5.2.3.1, §6.1.2 -/
@@ -944,21 +954,21 @@ theorem c09_rule_repaired :
   cases violates_FieldSelectionMerging S d <;> cases violates_SingleRootField d (closureFuel d)
     <;> cases violates_VariableValues S d vars o <;> simp
 
-/-- OverlappingFieldsCanBeMerged is SOUND for §5.3.2 Field Selection Merging where every inline
-    fragment carries a type condition (without: `c09_counterexample_overlap_untyped_inline`); that it is
-    not complete is the open finding C09-overlap-keyed-by-condition, and what a repaired
-    implementation adds is `c09_rule_repaired` -/
+/-- OverlappingFieldsCanBeMerged is SOUND for §5.3.2 Field Selection Merging (the repaired rule files
+    the fields of a condition-less inline fragment under the enclosing `on_type`, see
+    `c09_witness_overlap_untyped_inline`); that it is not complete is the open finding
+    C09-overlap-keyed-by-condition, and what a repaired implementation adds is `c09_rule_repaired` -/
 theorem c09_rule_overlapping_fields_sound (hs : violates_OperationTypeExists S d = false)
-    (hI : AGV.Lemmas.ValidateOverlap.DocTypedInlines d) (k : Model.Validate.Kind)
+    (k : Model.Validate.Kind)
     (hk : k = .conflictFields ∨ k = .conflictArgsLen ∨ k = .conflictArgsVal) (h : k ∈ strictErrors S {} d vars o) :
     violates_FieldSelectionMerging S d = true :=
-  AGV.Lemmas.ValidateOverlap.overlap_sound S d (served_of S d hs) hI k ((strict_overlap S d vars o k hk).mp h)
+  AGV.Lemmas.ValidateOverlap.overlap_sound S d (served_of S d hs) k ((strict_overlap S d vars o k hk).mp h)
 
 end rules2
 
 open AGV.Lemmas.ValidateRules AGV.Lemmas.ValidateWalk AGV.Lemmas.ValidateGraph AGV.Lemmas.ValidateSpecNodes
 
--- ------------------------------------------------------------------ where the repaired model still differs from the reference
+-- ------------------------------------------------------------------ the four rule defects found by the proof work
 
 /-- the witness schema with one more field on `Dog` and two more on `Query` -/
 def S1 : VSchema := { S0 with base := { S0.base with types := S0.base.types.map (fun t =>
@@ -968,98 +978,135 @@ def S1 : VSchema := { S0 with base := { S0.base with types := S0.base.types.map 
      { name := "lst", ty := .named "Int", args := [{ name := "xs", ty := .list (.named "Int"), default := none }] }] }
   else t) } }
 
-def rejects1 (d : Doc) (vars : List (String × GValue) := []) : Bool := (checkRules S1 {} d vars none).isRejected
+def rejects1 (D : Defects) (d : Doc) (vars : List (String × GValue) := []) : Bool := (checkRules S1 D d vars none).isRejected
 def violations1 (d : Doc) (vars : List (String × GValue) := []) : List String := Spec.Validate.violations {} S1 d vars none
 
 /-- `{ pet { ... on Dog { ... { k: nick } } ... on Cat { ... { k: name } } } }`: both fields are of
-    type `String` and can never apply to the same object, so §5.3.2 allows them; the implemented
+    type `String` and can never apply to the same object, so §5.3.2 allows them; the pinned
     `OverlappingFieldsCanBeMerged` keys an inline fragment WITHOUT type condition by `None`, finds
-    two different fields under (None, "k") and reports a conflict — which a repair that only ADDS the
-    missing comparisons keeps reporting -/
+    two different fields under (None, "k") and reports a conflict: a VALID document is rejected
+    (finding C09-overlap-untyped-inline).  Repaired: the enclosing `on_type` is kept. -/
 def dOverlapUntyped : Doc :=
   q [] [fld "pet" [] [.inline (some "Dog") [] [.inline none [] [fld "nick" [] [] (some "k")] p0] p0,
                       .inline (some "Cat") [] [.inline none [] [fld "name" [] [] (some "k")] p0] p0]]
 
-theorem c09_counterexample_overlap_untyped_inline :
-    rejects1 dOverlapUntyped = true ∧ violations1 dOverlapUntyped = []
-    ∧ Kind.conflictFields ∈ strictErrors S1 {} dOverlapUntyped [] none := by
+theorem c09_witness_overlap_untyped_inline :
+    rejects1 { overlapUntypedInlineKeyedNone := true } dOverlapUntyped = true
+    ∧ Kind.conflictFields ∈ strictErrors S1 { overlapUntypedInlineKeyedNone := true } dOverlapUntyped [] none
+    ∧ rejects1 {} dOverlapUntyped = false ∧ violations1 dOverlapUntyped = [] := by
   decide +kernel
 
 /-- `query($v: Int = null){ n(x: $v) }` (x: Int!): IsVariableUsageAllowed does not count a `null`
-    default, `VariableInAllowedPosition` counts every default -/
+    default, the pinned `VariableInAllowedPosition` counts every default (finding
+    C09-null-default-counts, latent behind C09-input-value-not-forwarded: shown here with the
+    forwarding repaired) -/
 def dNullDefault : Doc := q [{ name := "v", ty := .named "Int", default := some .null }] [fld "n" [("x", .var "v")]]
-theorem c09_counterexample_null_default :
-    rejects1 dNullDefault = false ∧ violations1 dNullDefault = ["5.8.5 All Variable Usages Are Allowed"] := by
+theorem c09_witness_null_default :
+    rejects1 { nullDefaultCounts := true } dNullDefault = false ∧ rejects1 {} dNullDefault = true
+    ∧ violations1 dNullDefault = ["5.8.5 All Variable Usages Are Allowed"]
+    ∧ rejects1 Defects.pinned dNullDefault = false := by
   decide +kernel
 
-/-- `{ __typename(x: 1) }` and `{ petx(x: 1) { __typename(x: 1) } }`: `KnownArgumentNames` looks the
-    field up with `field_by_name`, which does not know `__typename`; at the top level it has no
-    `current_args`, below `petx` it still has the arguments of `petx` -/
+/-- `{ __typename(x: 1) }` and `{ petx(x: 1) { __typename(x: 1) } }`: the pinned `KnownArgumentNames`
+    looks the field up with `field_by_name`, which does not know `__typename`, and keeps the
+    `current_args` it has: none at the top level, those of `petx` below it (finding
+    C09-known-args-stale, for `__typename` latent behind C09-typename-not-visited: shown here with the
+    walk of `__typename` repaired); `{ petx(x: 1) { nope(y: 1) } }`: on the pinned tree the unknown
+    argument `y` is reported against `petx` -/
 def dTypenameArg : Doc := q [] [fld "__typename" [("x", .int 1)]]
 def dStaleArgs : Doc := q [] [fld "petx" [("x", .int 1)] [fld "__typename" [("x", .int 1)]]]
-theorem c09_counterexample_typename_arguments :
-    rejects1 dTypenameArg = false ∧ violations1 dTypenameArg = ["5.4.1 Argument Names"]
-    ∧ rejects1 dStaleArgs = false ∧ violations1 dStaleArgs = ["5.4.1 Argument Names"] := by
+def dStaleMessage : Doc := q [] [fld "petx" [("x", .int 1)] [fld "nope" [("y", .int 1)]]]
+theorem c09_witness_typename_arguments :
+    rejects1 { knownArgsStale := true } dTypenameArg = false ∧ rejects1 {} dTypenameArg = true
+    ∧ violations1 dTypenameArg = ["5.4.1 Argument Names"]
+    ∧ rejects1 { knownArgsStale := true } dStaleArgs = false ∧ rejects1 {} dStaleArgs = true
+    ∧ violations1 dStaleArgs = ["5.4.1 Argument Names"]
+    ∧ Kind.unknownArgField ∈ strictErrors S1 Defects.pinned dStaleMessage [] none
+    ∧ Kind.unknownArgField ∉ strictErrors S1 { Defects.pinned with knownArgsStale := false } dStaleMessage [] none
+    ∧ violations1 dStaleMessage = ["5.3.1 Field Selections"] := by
   decide +kernel
 
-/-- `query($v: Int){ lst(xs: [$v, "bad"]) }` without a value for `$v`: `ArgumentsOfCorrectType`
-    judges the argument after substituting the supplied variables and gives up when one is missing -/
+/-- `query($v: Int){ lst(xs: [$v, "bad"]) }` without a value for `$v`: the pinned
+    `ArgumentsOfCorrectType` judges the argument after substituting the supplied variables and gives
+    up when one is missing (finding C06-literal-unchecked-beside-unsupplied-variable, `also` C09);
+    repaired, it judges the literal as written -/
 def dVarInList : Doc := q [{ name := "v", ty := .named "Int", default := none }] [fld "lst" [("xs", .list [.var "v", .str "bad"])]]
-theorem c09_counterexample_variable_in_list :
-    rejects1 dVarInList = false ∧ violations1 dVarInList = ["5.6 Values Of Correct Type"] := by
+theorem c09_witness_variable_in_list :
+    rejects1 Defects.pinned dVarInList = false
+    ∧ rejects1 { Defects.pinned with argsJudgedAfterSubstitution := false } dVarInList = true
+    ∧ rejects1 {} dVarInList = true ∧ violations1 dVarInList = ["5.6 Values Of Correct Type"] := by
   decide +kernel
 
 /-- `query($c: Color!){ color(c: $c) }` with `{"c": "RED"}`: a variable VALUE for an enum arrives as a
-    string (§3.9 input coercion), `ArgumentsOfCorrectType` judges it with the rule for literals once
-    `enumAcceptsString` is off -/
+    string (§3.9 input coercion).  The pinned tree accepts it (it accepts strings for enums
+    everywhere); a repair of `enumAcceptsString` ALONE, keeping the substitution, would judge the
+    value by the rule for literals and refuse a valid request; the repaired model judges literals by
+    §5.6.1 and variable values by §6.1.2, and accepts — while the string LITERAL stays refused -/
 def dEnumVar : Doc := q [{ name := "c", ty := .nonNull (.named "Color"), default := none }] [fld "color" [("c", .var "c")]]
-theorem c09_counterexample_enum_variable :
-    rejects1 dEnumVar [("c", .str "RED")] = true ∧ violations1 dEnumVar [("c", .str "RED")] = [] := by
+theorem c09_witness_enum_variable :
+    rejects1 Defects.pinned dEnumVar [("c", .str "RED")] = false
+    ∧ rejects1 { argsJudgedAfterSubstitution := true } dEnumVar [("c", .str "RED")] = true
+    ∧ rejects1 {} dEnumVar [("c", .str "RED")] = false ∧ violations1 dEnumVar [("c", .str "RED")] = []
+    ∧ rejects1 {} dEnumStr = true ∧ rejects1 {} dEnumVar [("c", .int 3)] = true := by
   decide +kernel
 
-/-- `S1` with the first document satisfies every exclusion of `C09Hyp` -/
-theorem c09_counterexample_hyp : C09Hyp S1 dOverlapUntyped [] none where
+/-- what still separates the repaired model from the reference validator under `C09Hyp`: an object
+    literal that repeats a key — `{ one(o: {a: 1, a: 2}) }` against an ordinary input object —
+    passes `is_valid_input_value` (it looks every declared field up once), §5.6.3 forbids it -/
+def S2 : VSchema := { S1 with inputs := [{ name := "One", oneof := false, fields := [{ name := "a", ty := .named "Int", default := none }] }] }
+def dRepeatedKey : Doc := q [] [fld "one" [("o", .obj [("a", .int 1), ("a", .int 2)])]]
+theorem c09_counterexample_repeated_key :
+    (checkRules S2 {} dRepeatedKey [] none).isRejected = false
+    ∧ Spec.Validate.violations {} S2 dRepeatedKey [] none = ["5.6 Values Of Correct Type"] := by
+  decide +kernel
+
+/-- `S2` with that document satisfies every exclusion of `C09Hyp` -/
+theorem c09_counterexample_hyp : C09Hyp S2 dRepeatedKey [] none where
   selected := by decide
-  defaults := by simp [dOverlapUntyped, q]
-  roots := by intro t r h; cases t <;> simp [Spec.Validate.rootType, S1, S0] at h <;> subst h <;> decide
+  defaults := by simp [dRepeatedKey, q]
+  roots := by intro t r h; cases t <;> simp [Spec.Validate.rootType, S2, S1, S0] at h <;> subst h <;> decide
   fields := by decide
   string := by decide
   inputs := by decide
   members := by decide
 
-/-- `c09_corrected` is FALSE of the model: the toggle-free model keeps the implemented
-    OverlappingFieldsCanBeMerged, which rejects a document the reference validator accepts. -/
+/-- `c09_corrected` is FALSE of the model: `is_valid_input_value` does not look for repeated keys. -/
 theorem c09_corrected_refuted : ¬ c09_corrected := by
   intro h
-  have h1 := (h S1 dOverlapUntyped [] none c09_counterexample_hyp).mp
-    (by have := c09_counterexample_overlap_untyped_inline.1; exact this)
-  exact h1 (by
+  have h1 := (h S2 dRepeatedKey [] none c09_counterexample_hyp).mpr (by
     unfold Spec.Validate.Valid
-    exact c09_counterexample_overlap_untyped_inline.2.1)
+    rw [c09_counterexample_repeated_key.2]; simp)
+  rw [c09_counterexample_repeated_key.1] at h1
+  cases h1
+
+/-- `c09` (no hypothesis at all) is FALSE of the model for the same reason. -/
+theorem c09_refuted : ¬ c09 := by
+  intro h
+  have h1 := (h S2 dRepeatedKey [] none).mpr (by
+    unfold Spec.Validate.Valid
+    rw [c09_counterexample_repeated_key.2]; simp)
+  rw [c09_counterexample_repeated_key.1] at h1
+  cases h1
 
 section final
 open AGV.Lemmas.ValidateRules AGV.Lemmas.ValidateWalk AGV.Lemmas.ValidateGraph AGV.Lemmas.ValidateSpecNodes
 open AGV.Spec.Validate
 variable (S : VSchema) (d : Doc) (vars : List (String × GValue)) (o : Option String)
 
-/-- the hypotheses under which every rule of the toggle-free model has been tied to its reference rule -/
+/-- the hypotheses under which every rule of the toggle-free model has been tied to its reference
+    rule: a well-formed registry, no sub-selection below `__typename`, and agreement of
+    `is_valid_input_value` with §5.6.1 on the values that occur.  Variables, inline fragments without
+    type condition, `null` defaults, arguments at `__typename` and at unknown fields are all covered. -/
 structure C09WF (S : VSchema) (d : Doc) : Prop where
   /-- well-formed registry -/
   schema : SchemaWF S
   abstract : AbstractInhabited S
-  /-- no sub-selection and no arguments at `__typename` -/
+  /-- no sub-selection at `__typename` -/
   typenameSels : docOK d = true
-  typenameArgs : ∀ s ∈ allSels d, typenameNoArgs s
-  /-- no variable definition has the literal `null` as default -/
-  nullDefaults : NoNullDefault d
-  /-- a field that carries arguments is a field of its parent type -/
-  argsKnown : ArgsOnKnownFields S d
-  /-- arguments are literals without variables, on which `is_valid_input_value` and §5.6.1 agree; the same for defaults -/
-  varFree : DocVarFree d
+  /-- `is_valid_input_value` and §5.6.1 agree on the arguments (variables anywhere) and on the default
+      values of the document (they do where no object literal repeats a key: `c09_literals_agree`) -/
   literals : ArgLiteralsAgree S d
   defaults : DefaultsAgree S d
-  /-- every inline fragment carries a type condition (then the implemented overlap rule reports only real conflicts) -/
-  typedInlines : AGV.Lemmas.ValidateOverlap.DocTypedInlines d
 
 theorem exists_of_ne_nil {α} (l : List α) (h : l ≠ []) : ∃ x, x ∈ l := by
   cases l with
@@ -1129,10 +1176,10 @@ theorem c09_corrected_wf (H : C09WF S d) :
   have c2 := c09_rule_no_unused_fragments S d vars o hG
   have c3 := c09_rule_no_undefined_variables S d vars o hG
   have c4 := c09_rule_no_unused_variables S d vars o hG
-  have c5 := c09_rule_variables_in_allowed_position S d vars o hG H.schema H.nullDefaults
-  have c6 := c09_rule_known_argument_names S d vars o H.schema hs H.argsKnown H.typenameArgs
+  have c5 := c09_rule_variables_in_allowed_position S d vars o hG H.schema
+  have c6 := c09_rule_known_argument_names S d vars o H.schema hs
   have c7 := c09_rule_default_values S d vars o hs H.defaults
-  have c8 := c09_rule_arguments_of_correct_type S d vars o H.schema hs H.varFree H.literals
+  have c8 := c09_rule_arguments_of_correct_type S d vars o H.schema hs H.literals
   have c9 := c09_rule_repaired S d vars o
   have hsplit := c09_values_of_correct_type_split S d
   have nv : ∀ r, r ∈ violations {} S d vars o → ¬ Valid {} S d vars o := not_valid_of S d vars o
@@ -1186,7 +1233,7 @@ theorem c09_corrected_wf (H : C09WF S d) :
           · subst hk1
             exact nv "5.8.5 All Variable Usages Are Allowed" (v_usagesAllowed {} S d vars o (c5.mp hk))
           · exact nv "5.3.2 Field Selection Merging"
-              (v_merging {} S d vars o (AGV.Lemmas.ValidateOverlap.overlap_sound S d (served_of S d hs) H.typedInlines k hov))
+              (v_merging {} S d vars o (AGV.Lemmas.ValidateOverlap.overlap_sound S d (served_of S d hs) k hov))
       · have := repaired_only S d vars o k hk
         subst this
         rcases c9.mp hk with h | h | h
@@ -1240,42 +1287,51 @@ end final
 
 open AGV.Lemmas.ValidateRules AGV.Lemmas.ValidateWalk AGV.Lemmas.ValidateGraph AGV.Lemmas.ValidateSpecNodes
 
-/-- `{ n(x: 1) color(c: RED) pet @skip(if: true) { ... on Dog { id } ...F __typename } }
-     fragment F on Pet { ... on Cat { name } }` -/
+/-- `query($v: Int = null, $c: Color!, $b: Boolean!) { n(x: 1) def(x: $v) color(c: $c)
+       pet @skip(if: $b) { ... { __typename } ... on Dog { ... { k: id } } ... on Cat { ... { k: id } } ...F } }
+     fragment F on Pet { ... on Cat { name } }` — variables in arguments, a `null` default, inline
+    fragments without type condition -/
 def dWF : Doc :=
-  { ops := [{ ty := .query, name := none, vars := [], dirs := [],
-              sels := [fld "n" [("x", .int 1)], fld "color" [("c", .enum "RED")],
-                       fld "pet" [] [.inline (some "Dog") [] [fld "id"] p0, .spread "F" [] p0, fld "__typename"] none
-                         [{ name := "skip", args := [("if", .bool true)] }]] }],
+  { ops := [{ ty := .query, name := none,
+              vars := [{ name := "v", ty := .named "Int", default := some .null },
+                       { name := "c", ty := .nonNull (.named "Color"), default := none },
+                       { name := "b", ty := .nonNull (.named "Boolean"), default := none }], dirs := [],
+              sels := [fld "n" [("x", .int 1)], fld "def" [("x", .var "v")], fld "color" [("c", .var "c")],
+                       fld "pet" [] [.inline none [] [fld "__typename"] p0,
+                                     .inline (some "Dog") [] [.inline none [] [fld "id" [] [] (some "k")] p0] p0,
+                                     .inline (some "Cat") [] [.inline none [] [fld "id" [] [] (some "k")] p0] p0,
+                                     .spread "F" [] p0] none
+                         [{ name := "skip", args := [("if", .var "b")] }]] }],
     frags := [{ name := "F", cond := "Pet", dirs := [], sels := [.inline (some "Cat") [] [fld "name"] p0] }] }
 
-/-- the same with a string for `x: Int!`, an undefined fragment and an unused variable -/
+def dWFvars : List (String × GValue) := [("c", .str "RED"), ("b", .bool true)]
+
+/-- invalid: a `null`-defaulted variable at `x: Int!`, an argument at `__typename`, an argument at an
+    unknown field, an undefined fragment and an unused variable -/
 def dWFbad : Doc :=
-  { ops := [{ ty := .query, name := none, vars := [{ name := "u", ty := .named "Int", default := none }], dirs := [],
-              sels := [fld "n" [("x", .str "s")], .spread "Nope" [] p0] }],
+  { ops := [{ ty := .query, name := none,
+              vars := [{ name := "u", ty := .named "Int", default := none }, { name := "v", ty := .named "Int", default := some .null }], dirs := [],
+              sels := [fld "n" [("x", .var "v")], fld "__typename" [("x", .int 1)], fld "nope" [("y", .int 1)], .spread "Nope" [] p0] }],
     frags := dWF.frags }
 
 theorem c09_wf_example (d : Doc) (hd : d = dWF ∨ d = dWFbad) : C09WF S0 d where
   schema := c09_witness_schema_wellformed
   abstract := c09_witness_schema_abstract_inhabited
   typenameSels := by rcases hd with rfl | rfl <;> decide
-  typenameArgs := by rcases hd with rfl | rfl <;> decide
-  nullDefaults := by
-    rcases hd with rfl | rfl <;> intro o ho v hv <;> simp [dWF, dWFbad] at ho <;> subst ho <;> simp at hv
-    subst hv; simp
-  argsKnown := by rcases hd with rfl | rfl <;> decide +kernel
-  varFree := by rcases hd with rfl | rfl <;> exact ⟨by decide, by decide, by decide⟩
   literals := by rcases hd with rfl | rfl <;> decide +kernel
   defaults := by
     rcases hd with rfl | rfl <;> intro o ho v hv dv hdv <;> simp [dWF, dWFbad] at ho <;> subst ho <;> simp at hv
-    subst hv; simp at hdv
-  typedInlines := by rcases hd with rfl | rfl <;> decide
+    · rcases hv with rfl | rfl | rfl <;> simp at hdv
+      subst hdv; decide +kernel
+    · rcases hv with rfl | rfl <;> simp at hdv
+      subst hdv; decide +kernel
 
 /-- both sides of `c09_corrected_wf` on the two examples: accepted and valid; rejected and invalid -/
 example :
-    rejects {} dWF = false ∧ specInvalid dWF = false ∧ rejects {} dWFbad = true
+    rejects {} dWF dWFvars = false ∧ specInvalid dWF dWFvars = false ∧ rejects {} dWFbad = true
     ∧ Spec.Validate.violations {} S0 dWFbad [] none =
-        ["5.5.1.4 Fragments Must Be Used", "5.5.2.1 Fragment Spread Target Defined", "5.6 Values Of Correct Type", "5.8.4 All Variables Used"] := by
+        ["5.3.1 Field Selections", "5.4.1 Argument Names", "5.5.1.4 Fragments Must Be Used", "5.5.2.1 Fragment Spread Target Defined",
+         "5.8.4 All Variables Used", "5.8.5 All Variable Usages Are Allowed"] := by
   decide +kernel
 
 section partial3
@@ -1293,9 +1349,8 @@ def graphRules : List String :=
 /-- PARTIAL c09, third stage: with the five graph rules (NoFragmentCycles and the parser's
     recursion guard, NoUnusedFragments, NoUndefinedVariables, NoUnusedVariables,
     VariableInAllowedPosition) the equivalence covers 18 of the 22 rule structs (+ walker + all four
-    parser checks) against 23 of the 28 reference rules; variables may occur anywhere.  Extra
-    hypothesis: no variable has the literal `null` as default. -/
-theorem c09_partial_graph (hW : SchemaWF S) (hA : AbstractInhabited S) (hD : docOK d = true) (hN : NoNullDefault d) :
+    parser checks) against 23 of the 28 reference rules; variables may occur anywhere. -/
+theorem c09_partial_graph (hW : SchemaWF S) (hA : AbstractInhabited S) (hD : docOK d = true) :
     ((∃ k ∈ preErrors d, k ∈ provedPre ++ [PreKind.recursionDepth])
       ∨ (∃ k ∈ strictErrors S {} d vars o, k ∈ provedKinds ++ typedKinds ++ graphKinds)) ↔
       (∃ r ∈ violations {} S d vars o, r ∈ provedRules ++ typedRules ++ graphRules) := by
@@ -1327,7 +1382,7 @@ theorem c09_partial_graph (hW : SchemaWF S) (hA : AbstractInhabited S) (hD : doc
   have c2 := c09_rule_no_unused_fragments S d vars o hG
   have c3 := c09_rule_no_undefined_variables S d vars o hG
   have c4 := c09_rule_no_unused_variables S d vars o hG
-  have c5 := c09_rule_variables_in_allowed_position S d vars o hG hW hN
+  have c5 := c09_rule_variables_in_allowed_position S d vars o hG hW
   have mk : ∀ r, r ∈ violations {} S d vars o → r ∈ graphRules →
       (∃ r ∈ violations {} S d vars o, r ∈ provedRules ++ typedRules ++ graphRules) :=
     fun r hr hp => ⟨r, hr, List.mem_append_right _ hp⟩
@@ -1367,9 +1422,7 @@ theorem c09_partial_graph (hW : SchemaWF S) (hA : AbstractInhabited S) (hD : doc
       · exact mkK _ (c5.mpr hr) (by decide)
 
 /-- the hypotheses of the graph rules hold of the non-trivial valid example (two variables, both used) -/
-example : GraphHyp S0 dValid ∧ NoNullDefault dValid :=
-  ⟨graphHyp_of S0 dValid (by decide) (by decide) (by decide) (by decide),
-   by intro o ho v hv; simp [dValid, q] at ho; subst ho; simp at hv; rcases hv with rfl | rfl <;> simp⟩
+example : GraphHyp S0 dValid := graphHyp_of S0 dValid (by decide) (by decide) (by decide) (by decide)
 
 end partial3
 
@@ -1388,25 +1441,25 @@ theorem c09_rule_is_valid_input_value (hL : LitSchema S) (fuel : Nat) (t : TypeR
     validInput S {} fuel t c = litOk S fuel t (litOf c) :=
   valid_eq_lit S hL fuel t c hk
 
+/-- the same for the argument AS WRITTEN, variables anywhere: `is_valid_input_value` over literals
+    (what the repaired `ArgumentsOfCorrectType` applies) = §5.6.1 -/
+theorem c09_rule_is_valid_input_literal (hL : LitSchema S) (fuel : Nat) (t : TypeRef) (v : DValue) (hk : keysOkD v = true) :
+    validLit S {} fuel t v = litOk S fuel t v :=
+  lit_eq S hL fuel t v hk
+
 /-- the two agreement hypotheses of `C09WF` from registry conditions and unique keys -/
-theorem c09_literals_agree (hL : LitSchema S) (hV : DocVarFree d) (hA : ArgKeysOk S d) (hD : DefaultKeysOk d) :
+theorem c09_literals_agree (hL : LitSchema S) (hA : ArgKeysOk S d) (hD : DefaultKeysOk d) :
     ArgLiteralsAgree S d ∧ DefaultsAgree S d :=
-  ⟨argLiteralsAgree_of S d hL hA (argSites_varFree S d hV), defaultsAgree_of S d hL hD⟩
+  ⟨argLiteralsAgree_of S d hL hA, defaultsAgree_of S d hL hD⟩
 
 /-- `C09WF` from conditions on the registry and on the syntax of the document only -/
 theorem c09_wf_of_schema (hW : SchemaWF S) (hAb : AbstractInhabited S) (hL : LitSchema S)
-    (hD : docOK d = true) (hT : ∀ s ∈ allSels d, typenameNoArgs s) (hN : NoNullDefault d) (hK : ArgsOnKnownFields S d)
-    (hV : DocVarFree d) (hAk : ArgKeysOk S d) (hDk : DefaultKeysOk d) (hI : DocTypedInlines d) : C09WF S d where
+    (hD : docOK d = true) (hAk : ArgKeysOk S d) (hDk : DefaultKeysOk d) : C09WF S d where
   schema := hW
   abstract := hAb
   typenameSels := hD
-  typenameArgs := hT
-  nullDefaults := hN
-  argsKnown := hK
-  varFree := hV
-  literals := (c09_literals_agree S d hL hV hAk hDk).1
-  defaults := (c09_literals_agree S d hL hV hAk hDk).2
-  typedInlines := hI
+  literals := (c09_literals_agree S d hL hAk hDk).1
+  defaults := (c09_literals_agree S d hL hAk hDk).2
 
 /-- the witness schema with the fifth built-in scalar -/
 def S0F : VSchema := { S0 with base := { S0.base with types := S0.base.types ++ [ty "Float" .scalar] } }
